@@ -2,4 +2,4 @@
 # re-evaluates every seeded change against the current checks (scratch copies; /repo untouched) and records the verdicts
 # usage: tools/allseeds.sh [parallelism]   (repo test suite skipped: it was run when the seed was imported)
 V=$(cd "$(dirname "$0")/.." && pwd)
-ls -d $V/seeded/*/ | xargs -P ${1:-3} -I{} sh -c '/venv/bin/python '$V'/tools/tryseed.py {} --skip-tests --record > /tmp/allseeds.$(basename {}).log 2>&1; echo "$(basename {}) $(grep -o "\"verdict\": \"[A-Z-]*\"" /tmp/allseeds.$(basename {}).log | head -1)"'
+ls -d $V/seeded/*/ | while read d; do grep -q '"status": "superseded"' $d/meta.json || echo $d; done | xargs -P ${1:-3} -I{} sh -c '/venv/bin/python '$V'/tools/tryseed.py {} --skip-tests --record > /tmp/allseeds.$(basename {}).log 2>&1; echo "$(basename {}) $(grep -o "\"verdict\": \"[A-Z-]*\"" /tmp/allseeds.$(basename {}).log | head -1)"'
